@@ -10,7 +10,7 @@
 (* has N cells are judged in this run (x picks the execution, so TLC's workers       *)
 (* search them in parallel).  An explained execution ends in a canonical `done`      *)
 (* state whose invariant prints <<"ACCEPTED", x>>.                                   *)
-EXTENDS ThreadLink, Json, IOUtils
+EXTENDS ThreadLink, ThreadLinkWords, Json, IOUtils
 Log == ndJsonDeserialize(IOEnv.TRACE)
 VARIABLES x, l, had, done
 tvars == <<vars, x, l, had, done>>
@@ -24,9 +24,7 @@ WEnd   == More /\ Ev.e = "we" /\ wpc = "idle" /\ UNCHANGED vars /\ Consume /\ UN
 PBegin == More /\ Ev.e = "pb" /\ RStartM(Ev.la) /\ Consume /\ UNCHANGED had
 LastDelivered == IF rmode THEN (IF lagot = <<>> THEN <<>> ELSE lagot[Len(lagot)])
                           ELSE (IF got = <<>> THEN <<>> ELSE got[Len(got)])
-WordOf(c) == IF c.off = 0 THEN 47 * 16777216 + (65 + (c.id % 60)) * 65536
-             ELSE IF c.off = 1 THEN 44 * 16777216 + (IF c.len >= 3 THEN 105 * 65536 ELSE 0) + (IF c.len >= 4 THEN 105 * 256 ELSE 0)
-             ELSE c.id * 16 + c.off
+WordOf(c) == WordAt(c.id, c.off, c.len)                       \* ThreadLinkWords.tla
 Words(m) == [i \in 1..Len(m) |-> WordOf(m[i])]
 PEnd == /\ More /\ Ev.e = "pe" /\ rpc = "idle"
         /\ Ev.has = had
